@@ -1,13 +1,172 @@
-"""placeholder"""
+"""C16 part 3 - injected errors fire exactly as asked: TLA+ model `ErrInject` (one TLC run per
+(code class, failure count)), all paths up to a bound and all edges replayed through HTTP.
+
+Variants replayed: segment requests by $Number$ (video verr / audio aerr), by $Time$, and the
+manifest variant (merr=<code>=<n> against update=<m> requests).
+"""
+from __future__ import annotations
+
+import datetime
+
+from mc import core, tlc, world as W
+
+NOW = datetime.datetime(2024, 3, 1, 12, 0, 3, 500000, tzinfo=datetime.timezone.utc)
+CONFIGS = [(True, -1), (True, 0), (True, 1), (True, 2), (False, -1), (False, 1)]
+CODES = {True: 503, False: 404}
 
 
-def plan(ctx):
-    return [], {}
+def constants(is5xx, failures, tier):
+    return {'Sessions': '{"a","b"}', 'Types': '{"video","audio"}', 'Is5xx': 'TRUE' if is5xx else 'FALSE',
+            'HasFailures': 'TRUE' if failures >= 0 else 'FALSE', 'Failures': max(failures, 0),
+            'MaxSteps': 4 if tier == 'quick' else 6}
+
+
+_graphs = {}
+
+
+def graph(is5xx, failures, tier):
+    key = (is5xx, failures, tier)
+    if key not in _graphs:
+        _graphs[key] = tlc.Graph(tlc.run_tlc('ErrInject', constants(is5xx, failures, tier), ['NeverMoreThanConfigured']))
+    return _graphs[key]
+
+
+class Impl:
+    def __init__(self, variant, is5xx, failures):
+        self.w = W.World.shared(extras=True)
+        self.variant = variant
+        self.code = CODES[is5xx]
+        self.failures = failures
+
+    def reset(self):
+        self.clients = {'a': self.w.app.test_client(), 'b': self.w.app.test_client()}
+        W.set_now(NOW)
+
+    def url(self, typ, hit):
+        f = '' if self.failures < 0 else f'&failures={self.failures}'
+        v = self.variant
+        if v == 'manifest':
+            # types map to two different manifests (independent counters are keyed by usage 'manifest' and code, so
+            # both types share the manifest counter: the manifest variant uses a single type)
+            upd = 3 if hit else 4
+            return f'/dash/live/bbb/hand_made.mpd?merr={self.code}=3&update={upd}{f}'
+        name, ext, opt = {'video': ('bbb_v7', 'm4v', 'verr'), 'audio': ('bbb_a1', 'm4a', 'aerr')}[typ]
+        n = 5 if hit else 6
+        if v == 'number':
+            return f'/dash/vod/bbb/{name}/{n}.{ext}?{opt}={self.code}={5}{f}'
+        ts = {'video': 960, 'audio': 176128}[typ]
+        return f'/dash/vod/bbb/{name}/time/{(n - 1) * ts}.{ext}?{opt}={self.code}={5}{f}'
+
+    def do(self, act):
+        kind, s, t = act[0], act[1], act[2]
+        r = self.w.get(self.url(t, kind == 'hit'), client=self.clients[s])
+        if r.exc is not None:
+            return 'crash:' + W.crash_signature(r.exc), r
+        if r.status == self.code and r.body.startswith(b'Synthetic'):
+            return 'code', r
+        if r.status == 200:
+            return 'ok', r
+        return f'status-{r.status}', r
+
+
+def replay_path(g, im, path, acc, tag, check_from=0):
+    im.reset()
+    src = g.init
+    for i, node in enumerate(path):
+        act = g.last[node]
+        want = act[3]
+        got, r = im.do(act)
+        acc.count('transitions')
+        if i >= check_from:
+            acc.count('evaluations')
+        if got != want:
+            sib = [n for n in g.succ[src] if g.last[n][:3] == act[:3] and g.last[n][3] == got]
+            if sib:
+                acc.outcome(('branch', tag, got))
+                return False
+            if i >= check_from:
+                cls = ('crash' if got.startswith('crash') else
+                       ('error-produced-but-not-allowed' if got == 'code' else
+                        ('served-but-error-required' if got == 'ok' else got)))
+                site = got.split(':', 1)[1] if got.startswith('crash') else ''
+                acc.violation(f'C16|inject|{im.variant}|{act[0]}|{cls}' + (f'|{site}' if site else ''),
+                              f'{tag}: after {[g.last[n] for n in path[:i]]}, {act[0]} by session {act[1]} on {act[2]}: '
+                              f'got {got}, the model prescribes {want} ({im.url(act[2], act[0] == "hit")})',
+                              {'kind': 'inject', 'variant': im.variant, 'is5xx': im.code >= 500, 'failures': im.failures,
+                               'history': [list(g.last[n]) for n in path[:i + 1]]})
+            return False
+        src = node
+    return True
+
+
+def item(arg):
+    mode, variant, is5xx, failures, tier, lo, hi, plen = arg
+    g = graph(is5xx, failures, tier)
+    im = Impl(variant, is5xx, failures)
+    acc = core.Acc()
+    tag = f'{variant}|{"5xx" if is5xx else "4xx"}|failures={"absent" if failures < 0 else failures}'
+    if mode == 'paths':
+        paths = g.all_paths(plen)
+        if variant == 'manifest':
+            paths = [p for p in paths if all(g.last[n][2] == 'video' for n in p)]
+        for p in paths[lo:hi]:
+            ok = replay_path(g, im, p, acc, tag)
+            acc.count('traces')
+            acc.state(('path', tag, tuple(g.last[n] for n in p)))
+            if ok:
+                acc.nontriv(('path', tag, tuple(g.last[n] for n in p)))
+    else:
+        sp = g.shortest_paths()
+        nodes = sorted(sp, key=lambda n: (len(sp[n]), [g.last[x] for x in sp[n]]))
+        for n in nodes[lo:hi]:
+            for s in g.succ[n]:
+                path = sp[n] + [s]
+                ok = replay_path(g, im, path, acc, tag, check_from=len(path) - 1)
+                acc.count('traces')
+                acc.state(('edge', tag, n, s))
+                if ok:
+                    acc.nontriv(('edge', tag, n, s))
+    return acc
 
 
 def dispatch(kind, arg):
-    raise NotImplementedError
+    return item(arg)
+
+
+def plan(ctx):
+    tier = ctx.tier
+    items = []
+    summary = {}
+    plen = 3 if tier == 'quick' else 5
+    for is5xx, failures in CONFIGS:
+        g = graph(is5xx, failures, tier)        # TLC runs in the parent; workers inherit the graphs
+        npaths = len(g.all_paths(plen))
+        summary[f'{"5xx" if is5xx else "4xx"}/failures={failures}'] = {'states': len(g.last), 'edges': g.n_edges,
+                                                                      'paths': npaths, 'tlc': g.stats}
+        for variant in ('number', 'time', 'manifest'):
+            for lo in range(0, npaths, 150):
+                items.append(('inject', ('paths', variant, is5xx, failures, tier, lo, lo + 150, plen)))
+        for lo in range(0, len(g.last), 120):
+            items.append(('inject', ('edges', 'number', is5xx, failures, tier, lo, lo + 120, plen)))
+    extra = {'inject_tlc': {'model': 'models/ErrInject.tla', 'runs': summary, 'invariant': 'NeverMoreThanConfigured'},
+             'inject_levels': f'ErrInject model: {len(CONFIGS)} TLC runs; all paths <= {plen} replayed for number, time and '
+                              f'manifest variants, all edges for the number variant'}
+    return items, extra
 
 
 def replay(record):
-    return []
+    g = None
+    im = Impl(record['variant'], record['is5xx'], record['failures'])
+    im.reset()
+    hist = [tuple(h) for h in record['history']]
+    out = []
+    tag = f'{record["variant"]}|{"5xx" if record["is5xx"] else "4xx"}|failures={"absent" if record["failures"] < 0 else record["failures"]}'
+    for i, act in enumerate(hist):
+        got, r = im.do(act)
+        if i == len(hist) - 1 and got != act[3]:
+            cls = ('crash' if got.startswith('crash') else
+                   ('error-produced-but-not-allowed' if got == 'code' else
+                    ('served-but-error-required' if got == 'ok' else got)))
+            site = got.split(':', 1)[1] if got.startswith('crash') else ''
+            out.append((f'C16|inject|{record["variant"]}|{act[0]}|{cls}' + (f'|{site}' if site else ''), f'{hist}: got {got}'))
+    return out
